@@ -41,7 +41,7 @@ N_HANDLES = 8
 MAX_CELLS = 400      # texts are kept small: x.join(x) and x += x grow them geometrically
 LONG_MAX_CELLS = 12000      # ... except in "long" runs: few operations on texts of thousands of characters
 LONG_SIZES = [1000, 1023, 1024, 2048, 4095, 4096, 4097, 5000, 8192, 9999, 10000]
-ALPHA = "abcxyz0189 _-|ü<>^s\t"
+ALPHA = "abcxyz0189 _-|ü<>^s\t\u65e5\uff57e\u0301"     # incl. a wide, a full-width and a combining character
 
 
 def init_zygote():
